@@ -212,6 +212,12 @@ func (x *FnCtx) binop(op token.Token, a, b *Term, t types.Type, bt types.Type, s
 			}
 			return x.setBits(r, c.Val.BitLen())
 		}
+		// x & y on unsigned operands: uninterpreted, bounded by both operands
+		if !signed {
+			r := tb.UF("bitand", IntSort, a, b)
+			x.axiom(tb.And(tb.Le(tb.IntC(0), r), tb.Le(r, a), tb.Le(r, b)))
+			return r
+		}
 	case token.OR, token.XOR:
 		// disjoint bits: a has tz >= k and b < 2^k  =>  a + b
 		for _, p := range [][2]*Term{{a, b}, {b, a}} {
